@@ -14,14 +14,14 @@ open RedoModel.Generated
 def oobOrder (w : World) (ts : List Nat) : List Nat := if w.oobRev then ts.eraseDups.reverse else ts.eraseDups
 
 /-- Environment of the first phase: rebuild the checksummed dependencies, declared on nobody. -/
-def oobCx1 (cx : Ctx) : Ctx := { cx with noOob := true, unlocked := false, isRedo := false, parent := none }
+def oobCx1 (cx : Ctx) (t : Nat) : Ctx := { cx with noOob := true, unlocked := false, isRedo := false, cycles := t :: cx.cycles, parent := none }
 
 /-- Environment of the second phase: decide `t` again, unlocked. -/
 def oobCx2 (cx : Ctx) : Ctx := { cx with noOob := true, unlocked := true, isRedo := false }
 
 /-- The out-of-band path of a job for `t`, from the world `w` left by `should_build`. -/
 def oobPath (E : Engine) (cx : Ctx) (t : Nat) (ts : List Nat) (w : World) : JobResult × World :=
-  let r := E.ifchangeCmd (oobCx1 cx) (oobOrder w ts) w
+  let r := E.ifchangeCmd (oobCx1 cx t) (oobOrder w ts) w
   if r.1 = 0 then (.done (E.ifchangeCmd (oobCx2 cx) [t] r.2).1, (E.ifchangeCmd (oobCx2 cx) [t] r.2).2)
   else (.done r.1, r.2)
 
@@ -45,13 +45,13 @@ theorem buildJob_need (E : Engine) (d : Defects) (cx : Ctx) (fuel t : Nat) (w : 
   · simp only [hrv, if_false]
 
 theorem oobPath_first_fails (E : Engine) (cx : Ctx) (t : Nat) (ts : List Nat) (w : World) (rv : Status) (w2 : World)
-    (h1 : E.ifchangeCmd (oobCx1 cx) (oobOrder w ts) w = (rv, w2)) (hrv : rv ≠ 0) :
+    (h1 : E.ifchangeCmd (oobCx1 cx t) (oobOrder w ts) w = (rv, w2)) (hrv : rv ≠ 0) :
     oobPath E cx t ts w = (.done rv, w2) := by
   unfold oobPath
   simp [h1, hrv]
 
 theorem oobPath_first_ok (E : Engine) (cx : Ctx) (t : Nat) (ts : List Nat) (w : World) (w2 : World)
-    (h1 : E.ifchangeCmd (oobCx1 cx) (oobOrder w ts) w = (0, w2)) :
+    (h1 : E.ifchangeCmd (oobCx1 cx t) (oobOrder w ts) w = (0, w2)) :
     oobPath E cx t ts w = (.done (E.ifchangeCmd (oobCx2 cx) [t] w2).1, (E.ifchangeCmd (oobCx2 cx) [t] w2).2) := by
   unfold oobPath
   simp [h1]
@@ -74,7 +74,7 @@ theorem need_then_recheck_cutoff (d : Defects) (n : Nat) (hn : 0 < n) (cx : Ctx)
     (ts : List Nat) (w2 : World)
     (hno : cx.noOob = false) (hd1 : d.oobRecordsDepsOnCaller = false) (hd2 : d.oobRebuildsDepsNotTarget = false)
     (hs : (shouldBuild cx fuel t w).1 = some (.need ts))
-    (h1 : (engine d (n + 1)).ifchangeCmd (oobCx1 cx) (oobOrder (shouldBuild cx fuel t w).2 ts)
+    (h1 : (engine d (n + 1)).ifchangeCmd (oobCx1 cx t) (oobOrder (shouldBuild cx fuel t w).2 ts)
       (shouldBuild cx fuel t w).2 = (0, w2))
     (hR : cx.runid ≠ 0) (ht : t ≠ alwaysId) (hcur : CurrentBefore w2 cx.runid t)
     (hq : ∀ d0 ∈ w2.deps, d0.target = t → QuietDep w2 t d0 ∨ MemoDep w2 cx.runid t d0) :
@@ -91,7 +91,7 @@ theorem need_then_recheck_changed (d : Defects) (n : Nat) (cx : Ctx) (fuel t : N
     (ts : List Nat) (w2 : World)
     (hno : cx.noOob = false) (hd1 : d.oobRecordsDepsOnCaller = false) (hd2 : d.oobRebuildsDepsNotTarget = false)
     (hs : (shouldBuild cx fuel t w).1 = some (.need ts))
-    (h1 : (engine d (n + 2)).ifchangeCmd (oobCx1 cx) (oobOrder (shouldBuild cx fuel t w).2 ts)
+    (h1 : (engine d (n + 2)).ifchangeCmd (oobCx1 cx t) (oobOrder (shouldBuild cx fuel t w).2 ts)
       (shouldBuild cx fuel t w).2 = (0, w2))
     (ht : t ≠ alwaysId) (hcur : CurrentBefore w2 cx.runid t)
     (d0 : Dep) (hd : d0 ∈ w2.deps) (hdt : d0.target = t) (hfire : ChangedDep w2 t d0)
